@@ -74,7 +74,11 @@ type Sched struct {
 	yNew      []*parked
 	YieldHits map[string]int // per-site hit counters (reach probes)
 	MaxHold   time.Duration
+	holdTotal atomic.Int64 // sum of all hold times assigned so far (injected-delay budget)
 }
+
+// HoldTotal returns the sum of the yield hold times assigned so far.
+func (s *Sched) HoldTotal() time.Duration { return time.Duration(s.holdTotal.Load()) }
 
 // YieldSpec says how a yield site behaves in this run.
 type YieldSpec struct {
@@ -239,6 +243,7 @@ func (s *Sched) collectYields() {
 		p.k = s.yHits[p.site]
 		s.yHits[p.site] = p.k + 1
 		d := s.holdFor(p.site, p.k)
+		s.holdTotal.Add(int64(d))
 		if s.Log != nil {
 			s.Log.Add("yield:"+p.site, "park", "k=%d hold=%d", p.k, int64(d))
 		}
